@@ -93,7 +93,7 @@ func CmdCheck(args []string) int {
 		seed, _ = strconv.Atoi(s)
 	}
 	if *timeout == 0 {
-		*timeout = 10 * time.Second
+		*timeout = 15 * time.Second
 		if *tier == "thorough" {
 			*timeout = 60 * time.Second
 		}
